@@ -45,6 +45,10 @@ For each mutant i in {{1,2}} write into /tmp/wt_{n}/out/:
    yourself by actually running it.
  - meta<i>.json : {{"property":"{pid}","summary":"...","needs_to_manifest":"...","demo_file":"src/...rs",
    "commands_run":["..."],"existing_tests_pass":true/false}}
+DISK NOTE: the disk is shared and limited. Each integration-test binary is ~380 MB: run integration tests one
+at a time (`--test <name>`), at most the handful that touch the code you changed, and delete the binary from
+your CARGO_TARGET_DIR (debug/deps/<name>-*) after each run. Never build the whole workspace's tests at once.
+
 Leave the worktree clean (git checkout -- .) when you are done; only the files in out/ matter. Keep your final
 report short (what each mutant is, what it needs to manifest, and the test results you saw).
 """
